@@ -4,16 +4,23 @@
 //   kind cfg:    config lexer + parser into a fresh config host       -> ok | fail
 //   kind pp:     preprocessor (the text is /main.sqf of a scratch directory mapped to /, the files lie beside it)
 //   kind compile / preprocess / configparse: the same front ends reached from a script
-// Every front end is run twice on fresh VMs; the output is "<outcome>:<number of error-level diagnostics>:<hex of
+// Every front end is run twice on fresh VMs and twice in a row in one VM; the output is "<outcome>:<number of error-level diagnostics>:<hex of
 // the result>" followed by " det=1" when both runs agree byte for byte.
 namespace vh
 {
-    inline std::string front_once(const std::string& kind, const std::string& text, const std::vector<std::string>& files)
+    // `repeat`: the front end runs that many times in ONE VM, the answer describes the last run (a run must not depend
+    // on what an earlier run in the same VM left behind: macro tables, counters, parser state)
+    inline std::string front_once(const std::string& kind, const std::string& text, const std::vector<std::string>& files, int repeat = 1)
     {
         namespace fs = std::filesystem;
         auto v = make_vm(regmode::real);
         std::string outcome, payload;
         auto errors = [&]() { size_t n = 0; for (auto& e : v.logger->entries) { if (e.level <= (int)loglevel::error) { n++; } } return n; };
+        for (int rep = 0; rep < repeat; rep++)
+        {
+        v.logger->entries.clear();
+        outcome.clear();
+        payload.clear();
         if (kind == "sqf")
         {
             auto set = v.rt->parser_sqf().parse(*v.rt, text, sqf::runtime::fileio::pathinfo(std::string("f.sqf"), std::string()));
@@ -58,7 +65,8 @@ namespace vh
             size_t qp = 0;
             while ((qp = quoted.find('"', qp)) != std::string::npos) { quoted.insert(qp, "\""); qp += 2; }
             std::string op = kind == "compile" ? "compile" : kind == "preprocess" ? "preprocess__" : "configparse__";
-            std::string prog = "gr = " + op + " \"" + quoted + "\"";
+            std::string gvar = "gr" + std::to_string(rep);          // a variable of its own for every run in the VM
+            std::string prog = gvar + " = " + op + " \"" + quoted + "\"";
             auto set = v.rt->parser_sqf().parse(*v.rt, prog, sqf::runtime::fileio::pathinfo(std::string("q"), std::string()));
             if (!set.has_value()) { outcome = "outer-parse-error"; }
             else
@@ -68,8 +76,9 @@ namespace vh
                 auto res = v.rt->execute(sqf::runtime::runtime::action::start);
                 outcome = result_name(res);
                 auto ns = v.rt->default_value_scope();
-                if (ns->contains("gr")) { payload = render_value(ns->at("gr")); }
+                if (ns->contains(gvar)) { payload = render_value(ns->at(gvar)); }
             }
+        }
         }
         return outcome + ":" + std::to_string(errors()) + ":" + std::to_string(payload.size()) + ":" + hex_of(payload.substr(0, 4000));
     }
@@ -81,7 +90,10 @@ namespace vh
         if (f.size() > 2 && !f[2].empty()) { files = split(f[2], '\x01'); }
         auto a = front_once(kind, text, files);
         auto b = front_once(kind, text, files);
-        return a + (a == b ? " det=1" : " det=0 second=" + b);
+        if (a != b) { return a + " det=0 second=" + b; }
+        // and once more as the second run inside one VM
+        auto c = front_once(kind, text, files, 2);
+        return a + (a == c ? " det=1" : " det=0 second-run-in-one-vm=" + c);
     }
 
     // pp <text> [<files: name \x02 content, separated by \x01>]
